@@ -14,7 +14,10 @@ RULE = ("lists of ids (double SHA-256 of distinct payloads): EXHAUSTIVELY all le
         "root(edited) != root(original) unless the lists are equal; for every position get_proof(tree,i).hash() == root "
         "(recomputed independently over the proof structure) and the proof contains a leaf with index i and value list[i]; "
         "calc_merkle_root_hash(transactions) == reference root of their ids; generated valid blocks (1-4 transactions) whose "
-        "transaction list is edited under an unchanged header are refused by validate_block_by_itself. non-trivial = (list, edit) pair with a different "
+        "transaction list is edited under an unchanged header are refused by validate_block_by_itself -- also for the genesis block "
+        "(whose id a checkpoint pins) and the recorded real blocks with the real checkpoint table in force, and for edited copies "
+        "delivered to a simulated node unsolicited or as an answer to a request (no held block may have a commitment that differs "
+        "from the merkle root of its transactions). non-trivial = (list, edit) pair with a different "
         "resulting list, or (list, position) proof; distinct = digest of (length, edit).")
 ASSUMPTIONS = ["ids crafted to equal an inner node (hash pre-image) are not generated"]
 MIN_NONTRIVIAL = {"quick": 2000, "thorough": 20000}
@@ -88,7 +91,7 @@ def check_proofs(res, M, lst, root, positions):
 
 def shards(tier):
     nmax = 9 if tier == "quick" else 12
-    return [{"kind": "exh", "n": n} for n in range(1, nmax + 1)] + [{"kind": "rand", "i": i} for i in range(4)] + [{"kind": "blocks", "i": i} for i in range(2)] + [{"kind": "overlap"}]
+    return [{"kind": "exh", "n": n} for n in range(1, nmax + 1)] + [{"kind": "rand", "i": i} for i in range(4)] + [{"kind": "blocks", "i": i} for i in range(2)] + [{"kind": "overlap"}, {"kind": "pinned"}, {"kind": "delivery"}]
 
 
 def block_edits(txs, extra):
@@ -203,10 +206,138 @@ def run_blocks(res, tier, seed, i):
     res.sample({"block_edits": ["substitute_reward", "append", "duplicate_last", "remove", "substitute", "swap", "reward_only"], "on": "generated valid blocks with 1..4 transactions, header unchanged"})
 
 
+def run_pinned(res, tier, seed):
+    """the header commitment check for blocks whose id is PINNED by a built-in checkpoint (the genesis block) and for the
+    recorded blocks of the real network, with the real checkpoint table in force: an edited transaction list under the
+    genuine header must be refused by validate_block_by_itself and by CoinState.add_block."""
+    import json
+    import os
+    env.use_fast_pow(horizon=163_000)              # real checkpoint table and horizon; scrypt is not reached by these checks
+    from skepticoin import consensus as C, datatypes as D
+    from skepticoin.coinstate import CoinState
+    from vf import build as b
+    from vf.keys import KEYS
+    data = json.load(open(os.path.join(os.path.dirname(os.path.dirname(os.path.abspath(__file__))), "data", "realblocks.json")))
+    raws = [("genesis", bytes.fromhex(data["genesis"]))] + [(n, bytes.fromhex(data["blocks"][n])) for n in sorted(data["blocks"])]
+    states = {"empty": CoinState.empty(), "zero": CoinState.zero()}
+    for name, raw in raws:
+        blk = R.dec_block(raw)[0]
+        skb = D.Block.deserialize(raw)
+        now = blk.ts + 10
+        try:
+            C.validate_block_by_itself(skb, now)
+        except Exception as e:
+            res.error("recorded block %s refused by validate_block_by_itself: %r" % (name, e))
+            continue
+        extras = []
+        for q in range(3):
+            alt_cb = R.RTx([(R.NULL32, 0, ("cb", blk.height, b"someone else %d" % q))], [(blk.txs[0].outs[0][0] * (10 ** q), KEYS[q].pub)])
+            extra_tx = R.RTx([(blk.txs[0].id(), 0, ("sig", KEYS[0].sign(b"x%d" % q)))], [(1 + q, KEYS[1].pub)])
+            extras.append((alt_cb, extra_tx))
+        for ex in extras:
+            for tag, txs in block_edits(blk.txs, ex):
+                res.evaluations += 1
+                res.count("pinned_edit:" + tag)
+                res.nontrivial(env.digest([blk.id().hex(), tag, [t.id().hex()[:12] for t in txs]]))
+                cand = D.Block(skb.header, [b.to_sk_tx(t) for t in txs])
+                ok = []
+                try:
+                    C.validate_block_by_itself(cand, now)
+                    ok.append("validate_block_by_itself")
+                except Exception:
+                    pass
+                for sn, cs in states.items():
+                    if blk.height == 0 and sn == "zero" or blk.height == 1 and sn == "empty" or blk.height > 1:
+                        continue
+                    try:
+                        cs.add_block(D.Block(skb.header, [b.to_sk_tx(t) for t in txs]), now)
+                        ok.append("add_block(%s state)" % sn)
+                    except Exception:
+                        pass
+                if ok:
+                    res.fail("header_commitment", "edited-transaction-list-passes-under-pinned-header:" + tag,
+                             "recorded block %s (height %d): transaction list edited (%s) under the genuine header passes %s" % (name, blk.height, tag, ", ".join(ok)),
+                             {"n": len(blk.txs), "pinned": name, "edit": tag})
+    res.sample({"pinned": [n for n, _ in raws], "edits": "substitute_reward / append / duplicate_last under the genuine header, real checkpoint table"})
+
+
+def run_delivery(res, tier, seed):
+    """the same at the node's door: copies of a NEW valid block with an edited transaction list under the genuine header are
+    delivered by a peer, unsolicited and as an answer to a request; afterwards every block the node holds must satisfy
+    commitment(header) == merkle root of its transaction ids, and the edited copy must not have been adopted."""
+    from vf import chainexec, simnet, build as b
+    from vf.keys import KEYS
+    from skepticoin.networking import messages as M
+    simnet.install()
+    n = 12 if tier == "quick" else 200
+
+    @hypothesis.seed(env.subseed(seed, ID, "delivery"))
+    @settings(max_examples=n, deadline=None, database=None, suppress_health_check=list(hypothesis.HealthCheck), phases=[hypothesis.Phase.generate])
+    @given(st.randoms(use_true_random=True), st.sampled_from(chainexec.CFGS[:3]))
+    def prop(rnd, cfg):
+        case = chainexec.gen_case(rnd, cfg, 6, 0.0, ["C01"], p_tx=0.7, p_twin=0.0)
+        case.pop("horizon", None)
+        r = chainexec.Run(case, ("C17",))
+        r.execute()
+        w_ = r.world
+        head = w_.uni.head()
+        head_label = next(l for l, x in w_.blocks.items() if x.id() == head.id)
+        free = sorted((ref, o) for ref, o in head.utxo.items() if any(k.pub == o[1] for k in KEYS))[:rnd.randrange(0, 3)]
+        txs = []
+        for q, (ref, o) in enumerate(free):
+            kk = next(k for k in KEYS if k.pub == o[1])
+            t = R.RTx([(ref[0], ref[1], ("se",))], [(o[0], KEYS[(q + 3) % len(KEYS)].pub)])
+            t.ins = [(ref[0], ref[1], ("sig", kk.sign(R.signing_message(t))))]
+            w_.txs["nxt.t%d" % q] = t.touch()
+            txs.append({"copy": "nxt.t%d" % q})
+        try:
+            nxt = w_.build_block({"label": "nxt", "parent": head_label, "miner": 2, "dt": w_.safe_dt(head, 50), "txs": txs})
+        except Exception as e:
+            raise env.HarnessError("cannot build the next block: %r" % e)
+        if nxt is None:
+            return
+        alt_cb = R.RTx([(R.NULL32, 0, ("cb", nxt.height, b"someone else"))], [(nxt.txs[0].outs[0][0] * 3, KEYS[5].pub)])
+        ref0, o0 = sorted(head.utxo.items())[0]
+        extra_tx = R.RTx([(ref0[0], ref0[1], ("sig", KEYS[0].sign(b"junk")))], [(o0[0], KEYS[1].pub)])
+        for tag, etxs in block_edits(nxt.txs, (alt_cb, extra_tx)):
+            for irt in (0, 7):
+                net = simnet.Net()
+                simnet.CLOCK.now = nxt.ts + 5
+                node = net.add("n", "10.0.0.1", r.cs, 5)
+                wire = simnet.Wire(net, node)
+                wire.greet()
+                cand = R.RBlock(nxt.height, nxt.prev, nxt.merkle, nxt.ts, nxt.target, nxt.nonce, nxt.ev, etxs)
+                wire.send(M.DataMessage(M.DATA_BLOCK, b.to_sk_block(cand)), in_response_to=irt)
+                wire.deliver()
+                res.evaluations += 1
+                res.count("delivered_edit:%s:%s" % (tag, "answer" if irt else "unsolicited"))
+                res.nontrivial(env.digest([nxt.id().hex(), tag, irt]))
+                cs = node.cm.coinstate
+                for bid, skb in cs.block_by_hash.items():
+                    if bid in r.cs.block_by_hash:
+                        continue
+                    got = b.from_sk_block(skb)
+                    if R.merkle_root([t.id() for t in got.txs]) != got.merkle:
+                        res.fail("header_commitment", "node-holds-block-whose-commitment-does-not-match:" + ("answer" if irt else "unsolicited"),
+                                 "a copy of a valid block with an edited transaction list (%s) delivered %s was adopted: the node holds block %s whose header commitment is not the merkle root of its transactions" % (
+                                     tag, "as an answer (in_response_to != 0)" if irt else "unsolicited", bid.hex()[:16]),
+                                 {"n": len(nxt.txs), "delivery": tag, "in_response_to": irt})
+
+    prop()
+    res.sample({"delivery": "edited copies of a new valid block under its genuine header, sent unsolicited and as an answer; invariant on every block the node then holds"})
+
+
 def run(shard, tier, seed):
     env.import_repo()
     from skepticoin import merkletree as M
     res = Result()
+    if shard["kind"] == "pinned":
+        run_pinned(res, tier, seed)
+        return res
+    if shard["kind"] == "delivery":
+        env.import_networking()
+        run_delivery(res, tier, seed)
+        return res
     if shard["kind"] == "blocks":
         run_blocks(res, tier, seed, shard["i"])
         return res
@@ -290,6 +421,13 @@ def replay(case):
         return res.failures
     if "overlap" in case:
         run_overlap(res, "quick", 1)
+        return res.failures
+    if "pinned" in case:
+        run_pinned(res, "quick", 1)
+        return res.failures
+    if "delivery" in case:
+        env.import_networking()
+        run_delivery(res, "quick", 1)
         return res.failures
     if "proof_position" in case:
         lst = ids(n)
